@@ -937,7 +937,7 @@ def tables_equal(a, b, rtol):
 # run
 # --------------------------------------------------------------------------
 def run(ctx):
-    ctx.build(FILES)
+    ctx.build_with_translator(FILES)
     ctx.cov['rule'] = (
         'find_peaks: random small images (random/plateau/all-negative/ties/a candidate on every border cell/'
         'constant, quarter-dyadic scaling, NaN, +-inf) x thresholds on or between data values (scalar/2-D, NaN '
